@@ -328,6 +328,14 @@ pub fn run(args: &[String]) {
             let d2 = read_asset(a, "async", &rt);
             rereads.push(json!({"i": i + 1, "sync_same": d1["norm"] == first_read[i]["norm"] && d1.get("err") == first_read[i].get("err"), "async_same": d2["norm"] == first_read[i]["norm"] && d2.get("err") == first_read[i].get("err")}));
         }
+        // every history ends with the same probe: the first asset read under lean, rich, lean and standard trust profiles
+        // (four contexts on this thread): what one context trusts must not carry over into the next
+        if ok_so_far && !lib.is_empty() {
+            for pf in [1u64, 2, 1, 0] {
+                let d = read_asset_p(&lib[0], "sync", &rt, pf);
+                steps.push(json!({"op": "R", "i": 1, "fl": "sync", "profile": pf, "same_as_first": true, "state": d["state"], "norm": d["norm"], "err": d.get("err"), "tail": true}));
+            }
+        }
         let mut fresh_res = Value::Null;
         if fresh && v["fresh"] != false && !lib.is_empty() {
             let dir = tempfile::tempdir().unwrap();
